@@ -77,7 +77,7 @@ func c09Oracle(e *Env, s *vsched.Sched) []Finding {
 func init() {
 	mc.Register(&mc.Check{
 		Prop:        "C09",
-		Rule:        "programs: every multiset of 2 operations (quick: preemption bound 1, bound 2 for 10 core pairs; thorough: bound 2, bound 3 for the core pairs without group resolution) and every multiset of 3 operations that contains a Close / cancel / CreateScope (thorough, bound 1) from a 15-operation alphabet (resolutions of every lifetime, by key and group, on the shared scope / another scope / the provider; scope and child-scope creation; Close of the scope, its parent, the provider; context cancellation), one operation per goroutine on one shared provider, with and without a scoped initializer; plus a scoped initializer that calls back into the container (creates a child scope on its injected Scope) against Close(provider) / CreateScope / a resolution (bound 2/3); all schedules within the preemption bound; a vector-clock happens-before race detector over every field access of godi's own structs runs on every execution. Auxiliary (sampling, not the deciding step): 14 free-running programs on the UNREWRITTEN godi under the Go race detector, 150 (1500) iterations each; a report with both accesses inside godi's packages is a violation. An outcome is the canonical observation string of one execution.",
+		Rule:        "programs: every multiset of 2 operations (quick: preemption bound 1, bound 2 for 10 core pairs; thorough: bound 2, bound 3 for the core pairs without group resolution) and every multiset of 3 operations that contains a Close / cancel / CreateScope (thorough, bound 1) from a 15-operation alphabet (resolutions of every lifetime, by key and group, on the shared scope / another scope / the provider; scope and child-scope creation; Close of the scope, its parent, the provider; context cancellation), one operation per goroutine on one shared provider, with and without a scoped initializer; plus sibling outputs of one multi-output registration (result object / multiple returns / two aliases; scoped and transient) requested concurrently in one scope; a scoped initializer that calls back into the container (creates a child scope on its injected Scope) against Close(provider) / CreateScope / a resolution (bound 2/3); all schedules within the preemption bound; a vector-clock happens-before race detector over every field access of godi's own structs runs on every execution. Auxiliary (sampling, not the deciding step): 14 free-running programs on the UNREWRITTEN godi under the Go race detector, 150 (1500) iterations each; a report with both accesses inside godi's packages is a violation. An outcome is the canonical observation string of one execution.",
 		Assume:      []string{"sync.RWMutex is modelled with Go's documented writer preference (a pending Lock excludes new readers), so recursive read-locking under a pending writer deadlocks as in reality", "sequentially consistent interleavings at synchronisation granularity; the race detector covers fields of godi's struct types only", "user code (constructors, Close methods) yields on entry"},
 		MinOutcomes: 10,
 		Jobs: func(tier string) []mc.Job {
@@ -133,6 +133,35 @@ func init() {
 						add([]string{c09Names[i], c09Names[j]}, true, 1)
 					}
 				}
+			}
+			// sibling outputs of ONE scoped / transient multi-output registration (result object, multiple returns,
+			// two aliases) requested concurrently in one scope: the waiter must get its output, not an error
+			{
+				mspec := kit.Spec{Regs: []kit.Reg{
+					{ID: 0, Life: "singleton", Outs: []kit.Out{{T: "D0"}}},
+					{ID: 1, Life: "scoped", ResObj: true, Outs: []kit.Out{{T: "D4"}, {T: "D5"}}, Deps: []kit.Dep{{T: "D0"}}},
+					{ID: 2, Life: "scoped", Outs: []kit.Out{{T: "P0"}, {T: "P1"}}},
+					{ID: 3, Life: "scoped", Outs: []kit.Out{{T: "D2"}}, As: []string{"IA", "IB"}},
+					{ID: 4, Life: "transient", ResObj: true, Outs: []kit.Out{{T: "P2"}, {T: "P3", Key: "k"}}},
+				}}
+				g := func(t, k string) []Op { return []Op{{Kind: "get", Scope: "s1", T: t, Key: k}} }
+				mk := func(name string, threads ...[]Op) {
+					sc := &Scenario{Name: "program/siblings-" + name, Spec: mspec, Setup: []Op{{Kind: "scope", Bind: "s1"}}, Threads: threads,
+						Final: []Op{{Kind: "get", Scope: "s1", T: "D4"}, {Kind: "get", Scope: "s1", T: "P1"}, {Kind: "get", Scope: "s1", T: "IB"}, {Kind: "settle"}, {Kind: "close", Scope: ""}, {Kind: "settle"}}}
+					pb := 2
+					if tier == "thorough" {
+						pb = 3
+					}
+					if len(threads) > 2 {
+						pb--
+					}
+					jobs = append(jobs, mc.Job{Name: sc.Name, Weight: 30, Run: func(r *mc.Report) { exploreScenario(r, sc, mc.Bounds{Preempt: pb}, c09Oracle) }})
+				}
+				mk("resobj", g("D4", ""), g("D5", ""))
+				mk("multi-return", g("P0", ""), g("P1", ""))
+				mk("aliases", g("IA", ""), g("IB", ""))
+				mk("transient-resobj", g("P2", ""), g("P3", "k"))
+				mk("resobj-x3", g("D4", ""), g("D5", ""), g("D5", ""))
 			}
 			// three resolvers of one scoped service, the first construction failing (the waiter retries while a third arrives)
 			{
